@@ -4,6 +4,8 @@ import (
 	"flag"
 	"fmt"
 	"os"
+	"os/exec"
+	"strings"
 	"strconv"
 	"time"
 
@@ -20,6 +22,20 @@ func main() {
 	if len(args) < 1 {
 		fmt.Println("usage: gocv check <ID> <quick|thorough> | gocv list <prefix>")
 		os.Exit(2)
+	}
+	if args[0] == "manifest" {
+		out, _ := exec.Command("git", "-C", *repo, "log", "--format=%h %s", "--grep=^verif:", "-n", "50").Output()
+		var commits []string
+		for _, l := range strings.Split(strings.TrimSpace(string(out)), "\n") {
+			if l != "" {
+				commits = append(commits, l)
+			}
+		}
+		if err := props.WriteManifest(*verif, commits); err != nil {
+			fmt.Fprintln(os.Stderr, err)
+			os.Exit(2)
+		}
+		return
 	}
 	t0 := time.Now()
 	P, err := sx.Load(*repo)
